@@ -342,11 +342,15 @@ func (r *verifRunner) step(a map[string]any) (string, error) {
 		// composite: every attached session leaves, the idle timer fires (real unload path), the same sessions re-subscribe
 		var names []string
 		oboOf := map[string]string{} // session -> user id it is attached on behalf of (root sessions)
+		chanOf := map[string]bool{}  // session -> attached as a channel reader
 		if tp := w.hub.topicGet(w.canon(t)); tp != nil && !tp.isInactive() {
 			for s, pssd := range tp.sessions {
 				for n, x := range w.sess {
 					if x.s == s {
 						names = append(names, n)
+						if pssd.isChanSub {
+							chanOf[n] = true
+						}
 						if pssd.uid != s.uid {
 							oboOf[n] = pssd.uid.UserId()
 						}
@@ -363,7 +367,7 @@ func (r *verifRunner) step(a map[string]any) (string, error) {
 		sort.Slice(names, func(i, j int) bool { return verifSessNum(names[i]) < verifSessNum(names[j]) })
 		for _, n := range names {
 			x := w.sess[n]
-			if err := w.send(x, withObo(n, map[string]any{"leave": map[string]any{"id": w.id(), "topic": w.addr(x, t, false)}}), true); err != nil {
+			if err := w.send(x, withObo(n, map[string]any{"leave": map[string]any{"id": w.id(), "topic": w.addr(x, t, chanOf[n])}}), true); err != nil {
 				return "", err
 			}
 		}
@@ -376,7 +380,7 @@ func (r *verifRunner) step(a map[string]any) (string, error) {
 		}
 		for _, n := range names {
 			x := w.sess[n]
-			if err := w.send(x, withObo(n, map[string]any{"sub": map[string]any{"id": w.id(), "topic": w.addr(x, t, false)}}), true); err != nil {
+			if err := w.send(x, withObo(n, map[string]any{"sub": map[string]any{"id": w.id(), "topic": w.addr(x, t, chanOf[n])}}), true); err != nil {
 				return "", err
 			}
 		}
@@ -703,12 +707,13 @@ func (r *verifRunner) snapshot() map[string]any {
 	st := map[string]any{}
 	topics := map[string]any{}
 	subs := map[string]any{}
+	csubs := map[string]any{}
 	msgs := map[string]any{}
 	dlog := map[string]any{}
 	cache := map[string]any{}
 	for _, tn := range r.b.Cfg.Topics {
 		cn := w.canon(tn)
-		trow := map[string]any{"exists": false, "seq": 0, "delId": 0, "owner": "", "auth": []string{}, "anon": []string{}, "state": "undef", "tags": []string{}, "public": "null", "trusted": "null"}
+		trow := map[string]any{"ischan": false, "exists": false, "seq": 0, "delId": 0, "owner": "", "auth": []string{}, "anon": []string{}, "state": "undef", "tags": []string{}, "public": "null", "trusted": "null"}
 		for _, t := range d.Topics {
 			if t.Name == cn && cn != "" {
 				pub, _ := json.Marshal(t.Public)
@@ -717,7 +722,7 @@ func (r *verifRunner) snapshot() map[string]any {
 				if tags == nil {
 					tags = []string{}
 				}
-				trow = map[string]any{"exists": true, "seq": t.SeqId, "delId": t.DelId, "owner": w.absUser(t.OwnerId),
+				trow = map[string]any{"ischan": t.UseBt, "exists": true, "seq": t.SeqId, "delId": t.DelId, "owner": w.absUser(t.OwnerId),
 					"auth": verifModeList(t.AccessAuth), "anon": verifModeList(t.AccessAnon), "state": t.State, "tags": tags,
 					"public": string(pub), "trusted": string(tru)}
 			}
@@ -743,6 +748,29 @@ func (r *verifRunner) snapshot() map[string]any {
 			}
 		}
 		subs[tn] = su
+		// channel readers' subscriptions are stored under the chnXXX spelling of the topic name
+		cu := map[string]any{}
+		for _, u := range users {
+			cu[u] = map[string]any{"st": "none", "want": []string{}, "given": []string{}, "read": 0, "recv": 0, "delId": 0, "private": "null"}
+		}
+		if strings.HasPrefix(cn, "grp") {
+			chn := types.GrpToChn(cn)
+			for _, s := range d.Subs {
+				if s.Topic == chn {
+					u := w.absUser(s.UserId)
+					if _, ok := cu[u]; !ok {
+						continue
+					}
+					state := "live"
+					if s.DeletedAt != nil {
+						state = "del"
+					}
+					cu[u] = map[string]any{"st": state, "want": verifModeList(s.ModeWant), "given": verifModeList(s.ModeGiven),
+						"read": s.ReadSeqId, "recv": s.RecvSeqId, "delId": s.DelId, "private": "null"}
+				}
+			}
+		}
+		csubs[tn] = cu
 		ml := []map[string]any{}
 		for _, m := range d.Messages {
 			if m.Topic == cn && cn != "" {
@@ -849,6 +877,7 @@ func (r *verifRunner) snapshot() map[string]any {
 		ss[s] = e
 	}
 	st["topics"], st["subs"], st["msgs"], st["dlog"], st["cache"], st["users"], st["sess"] = topics, subs, msgs, dlog, cache, us, ss
+	st["csubs"] = csubs
 	return st
 }
 
